@@ -22,7 +22,7 @@ from bitproto._ast import (
 )
 from bitproto.errors import InternalError
 from bitproto.renderer.formatter import CaseStyleMapping, Formatter
-from bitproto.utils import cast_or_raise, override
+from bitproto.utils import cast_or_raise, int_literal, override
 
 
 class GoFormatter(Formatter):
@@ -79,7 +79,7 @@ class GoFormatter(Formatter):
 
     @override(Formatter)
     def format_int_value(self, value: int) -> str:
-        return "{0}".format(value)
+        return int_literal(value)
 
     ###################
     # Type representing
